@@ -27,6 +27,7 @@ const (
 	c13ErrWithOuts
 	c13ErrOther
 	c13ErrTransient
+	c13ErrMultiline
 	c13Results
 )
 
@@ -37,7 +38,7 @@ func (e transientErr) Error() string { return "transient: " + e.cause.Error() }
 func (e transientErr) Cause() error  { return e.cause }
 func (e transientErr) Unwrap() error { return e.cause }
 
-var c13ResultNames = [...]string{"success", "success+outputs", "sentinel error", "wrapped sentinel error", "sentinel error + outputs", "other error", "transient wrapper around sentinel"}
+var c13ResultNames = [...]string{"success", "success+outputs", "sentinel error", "wrapped sentinel error", "sentinel error + outputs", "other error", "transient wrapper around sentinel", "error with a multi-line text (an aggregate of two errors)"}
 
 const (
 	c13FilterAll = iota
@@ -66,6 +67,8 @@ func c13Result(kind int, m *message.Message) ([]*message.Message, error) {
 		return outs, errC13Sentinel
 	case c13ErrTransient:
 		return nil, transientErr{errC13Sentinel}
+	case c13ErrMultiline:
+		return nil, fmt.Errorf("2 errors occurred:\n\t* %w\n\t* inventory service said: out of stock\n", errC13Sentinel)
 	default:
 		return nil, errC13Other
 	}
